@@ -208,21 +208,26 @@ pub fn g_node(n: &VNode) -> String {
 pub fn g_assignment(a: &[Option<usize>]) -> String {
     g_list(a, |o| g_opt(o, |c| g_nat(*c)))
 }
-pub fn g_inst(inst: &Inst) -> String {
-    format!(
-        "{}, {}, {}",
-        g_list(&inst.courses, |c| format!(
-            "({}, {}, {}, {}, {}, {})",
-            g_nat(c.min),
-            g_nat(c.max),
-            g_natlist(&c.instr),
-            g_bool(c.fixed),
-            g_z(c.fbits as i128),
-            g_z(c.obits as i128)
-        )),
+pub fn g_inst_parts(inst: &Inst) -> (String, String, String) {
+    (
+        g_list(&inst.courses, |c| {
+            format!(
+                "({}, {}, {}, {}, {}, {})",
+                g_nat(c.min),
+                g_nat(c.max),
+                g_natlist(&c.instr),
+                g_bool(c.fixed),
+                g_z(c.fbits as i128),
+                g_z(c.obits as i128)
+            )
+        }),
         g_list(&inst.parts, |p| g_list(p, |(c, pen)| format!("({}, {})", g_nat(*c), g_z(*pen as i128)))),
-        g_opt(&inst.rooms, |r| g_natlist(r))
+        g_opt(&inst.rooms, |r| g_natlist(r)),
     )
+}
+pub fn g_inst(inst: &Inst) -> String {
+    let (a, b, c) = g_inst_parts(inst);
+    format!("{}, {}, {}", a, b, c)
 }
 pub fn g_case(inst: &Inst, node: &VNode, out: &NOut) -> String {
     let res = match out {
